@@ -104,6 +104,12 @@ CHECKS.update({
         "For every public class of every generated hierarchy the stub must show each public method of the class and of its private ancestors exactly once, with the definition Python's MRO selects (identified by a parameter named after the defining class), must not name private ancestors in 'sub', and must list the public direct bases in source order, imported when defined in the other module.",
         "§5 C17",
     ),
+    "C09": (
+        "E2 function engine + E4 relation engine",
+        "exhaustive enumeration + Hypothesis on the conversion function against a reference conversion; metamorphic relation between the -nc off / on runs of generated packages (names, annotations iff changed, equality after mapping back)",
+        "All identifiers over a 7-letter alphabet up to length 6/7 and random identifiers to length 40 are converted and compared with a reference written from the statement (identity, idempotence, identifier-ness); every generated package is run with and without naming conversion and the two stub sets must agree on every recoverable Python name, carry @PythonName/@PythonModule exactly where the rendering differs, and be equal in everything else.",
+        "§5 C09",
+    ),
 })
 
 NOT_YET = "check not built yet in this session (work in progress, see DESIGN.md §9)"
